@@ -54,6 +54,9 @@ mod imp;
 #[cfg(any(target_os = "linux", target_os = "android"))]
 mod linux;
 
+#[cfg(quinn_rs_quinn_verif)]
+pub mod verif_hooks;
+
 #[cfg(windows)]
 #[path = "windows.rs"]
 mod imp;
